@@ -209,6 +209,14 @@ def check(case):
             rc, so, se = run_cli('--ekern2kern', '--input_path', imp_in)
             if rc != 0 or read(os.path.join(td, 'explicit', 'named.krn')) != kp.get_kern_from_ekern(got):
                 raise Bad('cli-ekern2kern-implicit', f'rc={rc} stderr={se[-300:]}')
+            # an ekern text written by hand need not end with a newline
+            noeol = os.path.join(td, 'explicit', 'noeol.ekrn')
+            write(noeol, got.rstrip('\n'))
+            rc, so, se = run_cli('--ekern2kern', '--input_path', noeol)
+            evals += 1
+            if rc != 0 or read(os.path.join(td, 'explicit', 'noeol.krn')) != kp.get_kern_from_ekern(got.rstrip('\n')):
+                raise Bad('cli-ekern2kern-no-final-newline', f'rc={rc}: CLI wrote {read(os.path.join(td, "explicit", "noeol.krn"))[-40:]!r}; '
+                                                             f'get_kern_from_ekern gives {kp.get_kern_from_ekern(got.rstrip(chr(10)))[-40:]!r}')
             rc, so, se = run_cli('--kern2ekern', '--input_path', back)
             evals += 1
             ek3 = os.path.join(td, 'explicit', 'back.ekrn')
